@@ -382,7 +382,7 @@ pub fn run(cfg: &Cfg, out: &mut Out) {
     // number of environments is bounded by a wall-clock budget: the cases are a deterministic
     // prefix of the seed's sequence; at least one environment always runs.
     let t0 = std::time::Instant::now();
-    let budget = if cfg.tier == Tier::Quick { 45.0 } else { 600.0 } * cfg.scale as f64;
+    let budget = if cfg.tier == Tier::Quick { 55.0 } else { 600.0 } * cfg.scale as f64;
     let max_envs = cfg.n(8, 80);
     let segs_per_env = 60;
     let mut ran = 0;
@@ -390,11 +390,11 @@ pub fn run(cfg: &Cfg, out: &mut Out) {
         if e > 0 && t0.elapsed().as_secs_f64() > budget { break; }
         let nn = 3;
         let mut env = new_env(&mut r, nn, 6);
-        if e == 0 { cas_probes(&env, out); }
         for i in 0..segs_per_env {
             if (e > 0 || i >= 30) && t0.elapsed().as_secs_f64() > budget { break; }
             run_segment(&mut env, out, &mut r);
         }
+        if e == 0 { cas_probes(&env, out); }
         ran += 1;
     }
     out.note(format!("{ran} environments (max {max_envs}, budget {budget}s) x {segs_per_env} segments (2..5 moves, then usually one multi-ref push); 3 bookmark names, 6 pool commits; remote = bare repo, second clone pushes; plus exhaustive classify cases and lease probes against real git"));
